@@ -357,7 +357,40 @@ impl<F: FnOnce()> Drop for Defer<F> { fn drop(&mut self) { if let Some(f) = self
 async fn run_client_inproc(stim: &Value, log: &Rec) {
     let svc = build_server(stim, log);
     let cap = Capture { inner: stack_of(svc), log: log.clone() };
-    drive_client(SvcClient::new(cap), stim, log).await;
+    // client.origin: the client is built with `with_origin` and an origin that has a path prefix (a service mounted below /api behind a
+    // gateway); the transport plays the gateway and strips the prefix before the request reaches the service
+    match stim["client"]["origin"].as_str() {
+        Some(o) => drive_client(SvcClient::with_origin(StripPrefix(cap), o.parse::<http::Uri>().expect("origin")), stim, log).await,
+        None => drive_client(SvcClient::new(cap), stim, log).await,
+    }
+}
+/// forwards a request whose path contains "/p.q.Svc/" with everything before that removed (a gateway's path rewrite)
+#[derive(Clone)]
+struct StripPrefix(Capture);
+impl Service<http::Request<Body>> for StripPrefix {
+    type Response = http::Response<Body>;
+    type Error = BoxErr;
+    type Future = Pin<Box<dyn Future<Output = Result<Self::Response, BoxErr>> + Send>>;
+    fn poll_ready(&mut self, cx: &mut Context<'_>) -> Poll<Result<(), BoxErr>> { self.0.poll_ready(cx) }
+    fn call(&mut self, req: http::Request<Body>) -> Self::Future {
+        // the request head is recorded as the client made it; the service then sees the method path alone
+        let (mut parts, body) = req.into_parts();
+        let recorded = http::Request::from_parts(parts.clone(), ());
+        let _ = recorded;
+        let path = parts.uri.path().to_string();
+        let log = self.0.log.clone();
+        log.ev(json!({"e":"req_head","method":parts.method.as_str(),"version":format!("{:?}", parts.version),
+            "path": str_json(&path), "uri": str_json(&parts.uri.to_string()), "list": headers_json(&parts.headers)}));
+        if let Some(i) = path.find("/p.q.Svc/") { parts.uri = path[i..].parse().unwrap_or(parts.uri.clone()); }
+        let body = Body::new(TapBody::new(body, log.clone(), "req"));
+        let fut = self.0.inner.call(http::Request::from_parts(parts, body));
+        Box::pin(async move {
+            let resp = fut.await?;
+            let (parts, body) = resp.into_parts();
+            log.ev(json!({"e":"resp_head","status":parts.status.as_u16(),"list":headers_json(&parts.headers),"eos":HttpBody::is_end_stream(&body)}));
+            Ok(http::Response::from_parts(parts, Body::new(TapBody::new(body, log, "resp"))))
+        })
+    }
 }
 
 async fn run_client_h2(stim: &Value, log: &Rec) {
@@ -703,9 +736,12 @@ pub fn gen(seed: u64, tier: &str) -> Vec<Value> {
         let noise = if h2 { [0u64, 0, 2, 4][rng.gen_range(0..4)] } else { 0 };
         out.push(json!({"mode":"client","class": if h2 {"h2"} else {"inproc"},"transport": if h2 {"h2"} else {"inproc"},"shim":shim,"shape":shape,
             "server":{"send":s_send,"accept":s_acc,"max_dec":-1,"max_enc":-1,"h2opts":s_h2},
-            "client":{"send":c_send,"accept":c_acc,"max_dec":-1,"max_enc":-1,"clone":rng.gen_bool(0.3),"warmup":warmup,"noise":noise,"h2opts":c_h2},
+            "client":{"send":c_send,"accept":c_acc,"max_dec":-1,"max_enc":-1,"clone":rng.gen_bool(0.3),"warmup":warmup,"noise":noise,"h2opts":c_h2,
+                      "origin": if !h2 && i % 7 == 3 { json!(["http://lab.test/api", "http://lab.test/api/", "http://lab.test/v1/grpc/", "http://lab.test"][(i / 7) % 4]) } else { Value::Null },
+                      "origin_prefix": if !h2 && i % 7 == 3 { str_json(["/api", "/api/", "/v1/grpc/", ""][(i / 7) % 4]) } else { Value::Null }},
             "req":{"meta":crate::labs::status::rand_meta(&mut rng),"msgs":req_msgs,"pend":(0..=nreq + 1).filter(|_| rng.gen_bool(0.25)).collect::<Vec<usize>>()},
             "script":rand_script(&mut rng, shape)}));
+        if let Some(c) = out.last_mut().and_then(|v| v["client"].as_object_mut()) { if c["origin"].is_null() { c.remove("origin"); c.remove("origin_prefix"); } }
     }
     out
 }
